@@ -11,7 +11,10 @@
    accepted -- no lexical, syntactic or validation diagnostic -- in each of the 10 statement
    contexts (start of file, after an expression statement, after a gate call, after a
    declaration, and inside the body of if / while / for / case / gate / def); the five known
-   findings are rejected in every context (witnesses).
+   findings are rejected in every context (witnesses).  One further exclusion, [k_ctx_empty]:
+   the empty statement `;` in the context "after a declaration" is the C16 finding
+   empty_stmt_after_item (the empty statement is not part of the OpenQASM 3 grammar; it is in the
+   table because C16 quantifies over it).
    PARTIAL: programs of unbounded size and nesting are not covered by a theorem; generated
    programs of the reference grammar in three layouts are checked on the implementation by the
    `accept` family and compared tree for tree with the model by the `tree` family. *)
@@ -20,11 +23,11 @@ From OQ3 Require Import gen.Templates Model.Accept Proofs.AcceptP.
 Import ListNotations.
 
 Theorem C04_every_statement_form_in_every_context : forall c i,
-  In c ctx_ids -> In i ids -> k_c04_rejected i = false -> accepted_in c i = true.
+  In c ctx_ids -> In i ids -> k_c04_rejected i = false -> k_ctx_empty c i = false -> accepted_in c i = true.
 Proof.
-  intros c i Hc Hi K. pose proof templates_accepted as H.
+  intros c i Hc Hi K K2. pose proof templates_accepted as H.
   rewrite forallb_forall in H. specialize (H c Hc). rewrite forallb_forall in H.
-  specialize (H i Hi). rewrite K in H. exact H.
+  specialize (H i Hi). rewrite K, K2 in H. exact H.
 Qed.
 
 Theorem C04_known_findings_refuted : forall c i,
